@@ -186,7 +186,7 @@ def reproduced(cex, rr):
         return False
     if cex["kind"] == "panic":
         return rr.get("panic") is not None
-    if cex["kind"] == "assert" and cex["label"].startswith("cut-"):
+    if cex["kind"] == "assert" and cex["label"].startswith(("cut-", "asm-pre", "no-overflow", "dispatch:", "table-contract")):
         return bool(rr.get("fails")) or rr.get("panic") is not None
     if cex["kind"] == "assert":
         return cex["label"] in (rr.get("fails") or []) or rr.get("panic") is not None
@@ -273,6 +273,7 @@ def run(pid, spec, a, seed, scratch, t0):
     violations, known_hits, inconclusive = [], [], []
     ob_total = ob_solver = ob_anf = ob_trivial = 0
     paths = steps = queries = merges = 0
+    cross = dict(unsat=0, timeout=0, disagree=0)
     solver_s = 0.0
     funcs, hashes, notes, labels, samples, reached, bounds_run = {}, {}, {}, {}, [], {}, []
     replays = 0
@@ -312,6 +313,9 @@ def run(pid, spec, a, seed, scratch, t0):
             steps += res["ssa_steps"]
             merges += res["merged_diamonds"]
             queries += res["solver"]["Queries"]
+            cross["unsat"] += res.get("normal_form_crosscheck_unsat", 0)
+            cross["timeout"] += res.get("normal_form_crosscheck_timeout", 0)
+            cross["disagree"] += res.get("normal_form_crosscheck_disagree", 0)
             solver_s += res["solver"]["Seconds"]
             hashes.update(r["res"].get("source_hashes", {}))
             for k, v in res["functions_encoded"].items():
@@ -379,7 +383,7 @@ def run(pid, spec, a, seed, scratch, t0):
             obligations_total=ob_total, obligations_by_solver=ob_solver, obligations_by_normal_form=ob_anf, obligations_trivial=ob_trivial,
             obligations_by_label=labels, functions_encoded=funcs, source_hashes=hashes,
             bounds=bounds_run, vacuity_witnesses=reached, models_and_summaries_used=notes,
-            counterexamples_replayed=replays,
+            counterexamples_replayed=replays, normal_form_crosschecks_by_solver=cross,
             known_findings_matched=[dict(id=k["id"], harness=h, label=l) for k, h, l in known_hits],
             inconclusive=inconclusive, exhaustive=False,
             explanation=spec.get("explanation", ""),
